@@ -16,6 +16,7 @@ type c01Case struct {
 	Dirty  *rReq    `json:"dirty,omitempty"` // served first through the same Echo: the probe gets its recycled context
 	Pre    bool     `json:"pre,omitempty"`   // a (no-op) Pre middleware is installed: routing happens inside the Pre chain
 	Req    rReq     `json:"req"`
+	Warm   int      `json:"warm,omitempty"` // >0: Routes[:Warm] registered, the request served once, then the rest registered
 }
 
 // c01Oracle: the pattern and the values the handler saw must rebuild the request path.
@@ -88,8 +89,11 @@ func c01SpecWire(o rObs) string {
 func c01Run(ci any) Result {
 	c := ci.(*c01Case)
 	var cur rObs
-	e := rEcho(c.Routes, &cur)
+	e := rEchoWarm(c.Routes, c.Warm, []rReq{c.Req}, &cur)
 	tags := []string{}
+	if c.Warm > 0 && c.Warm < len(c.Routes) {
+		tags = append(tags, "request-before-later-registrations")
+	}
 	if c.Pre {
 		e.Pre(func(next echo.HandlerFunc) echo.HandlerFunc { return func(ctx echo.Context) error { return next(ctx) } })
 		tags = append(tags, "with-pre")
@@ -145,6 +149,9 @@ func c01Gen(r *rand.Rand, tier string) []any {
 		for k := 0; k < per; k++ {
 			c := &c01Case{Routes: routes, Req: rReq{Method: rGenMethod(r, routes), Path: rGenPath(r, routes)}}
 			c.Pre = r.Intn(5) == 0
+			if len(routes) > 1 && r.Intn(5) == 0 {
+				c.Warm = 1 + r.Intn(len(routes)-1)
+			}
 			if r.Intn(5) == 0 {
 				// percent-encoded request target: the router must see RawPath, not the decoded Path
 				c.Req.Raw = true
@@ -174,9 +181,17 @@ func c01Shrink(ci any) []any {
 		d.Pre = false
 		out = append(out, &d)
 	}
-	for _, rs := range rShrinkRoutes(c.Routes) {
+	if c.Warm > 0 {
+		d := *c
+		d.Warm = 0
+		out = append(out, &d)
+	}
+	for i, rs := range rShrinkRoutes(c.Routes) {
 		d := *c
 		d.Routes = rs
+		if i < c.Warm {
+			d.Warm--
+		}
 		out = append(out, &d)
 	}
 	for _, p := range rShrinkString(c.Req.Path) {
